@@ -1,4 +1,6 @@
 """C01 Host transparency: the agent never changes what the host program does."""
+import sys
+
 from vlib import world
 from vlib.world import World, FakeFrame, plugins
 
@@ -182,8 +184,41 @@ def _fingerprint(d):
     return out
 
 
-def _run_script(w, script, f_locals, ret_value, exc_value):
+def _interpreter_state():
+    """Interpreter-wide settings that belong to the application (the trace hooks are the agent's own business)."""
+    import gc
+    import os
+    import warnings
+    return (("gc.isenabled", gc.isenabled()), ("gc.threshold", gc.get_threshold()), ("recursionlimit", sys.getrecursionlimit()),
+            ("switchinterval", sys.getswitchinterval()), ("sys.path", tuple(sys.path)), ("cwd", os.getcwd()),
+            ("environ", tuple(sorted(os.environ.items()))), ("warnings.filters", len(warnings.filters)),
+            ("stdout", id(sys.stdout)), ("stderr", id(sys.stderr)), ("excepthook", id(sys.excepthook)))
+
+
+def _run_script(w, script, f_locals, ret_value, exc_value, host_gc_off=False):
     """Deliver the script; returns failure signature or ''."""
+    import gc
+    was = gc.isenabled()
+    if host_gc_off:
+        gc.disable()            # an application that manages collection itself (latency-sensitive services do)
+    try:
+        state = _interpreter_state()
+        r = _run_script_inner(w, script, f_locals, ret_value, exc_value)
+        if r:
+            return r
+        now = _interpreter_state()
+        if now != state:
+            changed = [k for (k, v), (_, v2) in zip(state, now) if v != v2]
+            return "C01:interpreter-wide-setting-changed:" + changed[0]
+        return ""
+    finally:
+        if was:
+            gc.enable()
+        else:
+            gc.disable()
+
+
+def _run_script_inner(w, script, f_locals, ret_value, exc_value):
     f_globals = {"hg": 1, "x": "module-level x", "limit": 100}     # note: `x` is also a local (shadowing)
     frame = FakeFrame("/app/f.py", "fn", 0, f_locals, f_globals, FakeFrame("/app/main.py", "main", 1, {"m": 1}))
     before = _fingerprint(f_locals)
@@ -298,7 +333,7 @@ def lifetime(cfg: int, n: int) -> str:
         for i in range(n):
             obj = Tracked()
             f_locals = {"x": 1, "y": Z(), "boom": (lambda: 1), "tracked": obj}
-            r = _run_script(w, script, f_locals, "r", ValueError("e"))
+            r = _run_script(w, script, f_locals, "r", ValueError("e"), host_gc_off=(i % 2 == 1) or n == 1)
             if r:
                 return r
             del obj, f_locals
